@@ -680,3 +680,69 @@ def gen_successive_case(rng, strategy=None, start=None):
             "db": db, "input": rng.choice(["string", "string", "path"]), "reopen": rng.random() < 0.5,
             "ustrategy": strategy or rng.choice(STRATEGIES), "reopen_before": reopen_before,
             "handle": rng.choice(["create_db", "FeatureDB"]) if db == "file" else "create_db", "start": start}
+
+
+# ---------------------------------------------------------------------------------------------------------------
+# force_gff=True: the import runs through the GFF importer whatever the file looks like; with id_spec None the default of
+# THAT format applies ('ID', else '<featuretype>_<n>').  (This tree has no force_gtf option: create_db(force_gtf=True) is a
+# TypeError 'unhandled kwarg', so the converse is not generated.)
+FORCE_FORMS = ["none", "none", "none", "str", "list", "dict-str", "dict-list", "callable:name_attr"]
+
+
+def gen_force_case(rng):
+    fmt = "gtf" if rng.random() < 0.85 else "gff3"
+    n = rng.choice(NS)
+    multi_p = rng.choice([0.0, 0.0, 0.05])
+    recs = records(rng, fmt, n, multi_p)
+    if fmt == "gtf" and rng.random() < 0.8:
+        # gene / transcript lines carrying gene_id / transcript_id (some ids repeated): what the GTF default would key on
+        for rec in rng.sample(recs, rng.randrange(1, min(n, 4) + 1)):
+            ft = rng.choice(["gene", "transcript"])
+            i = recs.index(rec)
+            rec["featuretype"] = ft
+            keep = [a for a in rec["attrs"] if a[0] not in ("gene_id", "transcript_id")]
+            g = "G%d" % (rng.randrange(1, 3) if rng.random() < 0.5 else 10 + i)
+            lead = [["gene_id", [g]]]
+            if ft == "transcript":
+                lead.append(["transcript_id", ["Tx%d" % (rng.randrange(1, 3) if rng.random() < 0.4 else 10 + i)]])
+            if rng.random() < 0.5:
+                keep = [a for a in keep if a[0] != "ID"]
+            rec["attrs"] = lead + keep
+    form = rng.choice(FORCE_FORMS)
+    spec = spec_of(rng, form, recs, fmt)
+    path = "create+update" if (fmt == "gff3" and n >= 2 and rng.random() < 0.3) else "create"
+    if path == "create":
+        batches = [recs]
+    else:
+        cut = rng.randrange(1, n)
+        batches = [recs[:cut], recs[cut:]]
+    return {"kind": "import", "fmt": fmt, "form": form, "spec": spec, "batches": batches, "infer": rng.random() < 0.5,
+            "force": "gff", "db": "file" if (path != "create" or rng.random() < 0.3) else "memory",
+            "input": rng.choice(["string", "path"]), "reopen": rng.random() < 0.5}
+
+
+# ---------------------------------------------------------------------------------------------------------------
+# 'list or tuple': per-featuretype entries of a dict id_spec (and the whole id_spec) given as TUPLES of names
+def gen_tuple_case(rng):
+    fmt = rng.choice(["gff3", "gff3", "gtf"])
+    n = rng.choice([1, 2, 3, 4, 5, 6, 8, 12])
+    recs = records(rng, fmt, n, rng.choice([0.0, 0.0, 0.05, 0.15]))
+    r = rng.random()
+    if r < 0.15:
+        spec = dict(spec_of(rng, rng.choice(["list", "list+column"]), recs, fmt), seq="tuple")
+        form = "tuple"
+    else:
+        spec = spec_of(rng, "dict-list", recs, fmt)
+        types = sorted(spec["v"])
+        # mostly every entry a tuple; otherwise tuples, lists and strings side by side
+        tuples = list(types) if rng.random() < 0.5 else [t for t in types if rng.random() < 0.6] or types[:1]
+        for t in types:
+            if t not in tuples and rng.random() < 0.4:
+                spec["v"][t] = attr_name(rng)
+            elif rng.random() < 0.2:
+                spec["v"][t] = spec["v"][t][:1]          # a one-element tuple / list
+        spec["tuples"] = tuples
+        if rng.random() < 0.25:
+            spec["cls"] = rng.choice(["ordered", "subclass"])
+        form = "dict-tuple"
+    return finish_import(rng, fmt, form, spec, recs)
